@@ -79,10 +79,14 @@ package bed
 //@   let IN := S.in
 //@   let E := S.end
 //@   let k0 := lnAt(IN, E, p0)
-//@   let atLine := !S.fault && 0 <= k0 && k0 <= lnN(IN, E) && p0 == lnS(IN, E, k0)
-//@   ensures-view line @C04 atLine && bnx(IN, E, k0) == lnN(IN, E) ==> result.1 == 1
-//@   ensures-view line @C04 atLine && bnx(IN, E, k0) < lnN(IN, E) ==> result.1 != 1 && line == lnStr(IN, E, bnx(IN, E, k0)) && S.pos == lnS(IN, E, bnx(IN, E, k0) + 1)
-//@   ensures-view line @C04 atLine && bnx(IN, E, k0) < lnN(IN, E) && bedOK(line, n0) ==> result.1 == nil
+//@   let atLine := 0 <= k0 && k0 <= lnN(IN, E) && p0 == lnS(IN, E, k0) && (!S.fault || !old(r.r.fired))
+//@   let k1 := bnx(IN, E, k0)
+//@   let whole := !S.fault || (k1 < lnN(IN, E) && lnT(IN, E, k1) < E)
+//@   ensures-view line @C04 atLine && !S.fault && bnx(IN, E, k0) == lnN(IN, E) ==> result.1 == 1
+//@   ensures-view line @C04 atLine && whole && bnx(IN, E, k0) < lnN(IN, E) ==> result.1 != 1 && S.fired == old(r.r.fired) && line == lnStr(IN, E, bnx(IN, E, k0)) && S.pos == lnS(IN, E, bnx(IN, E, k0) + 1)
+//@   ensures-view line @C04 atLine && whole && bnx(IN, E, k0) < lnN(IN, E) && bedOK(line, n0) ==> result.1 == nil
+// under a fault only a line that is terminated before the end of the delivered bytes is parsed (C07)
+//@   ensures-view line @C07 atLine && S.fault && result.1 == nil ==> k1 < lnN(IN, E) && lnT(IN, E, k1) < E
 //@   loop 1
 //@     invariant r != nil
 //@     invariant p0 <= r.r.pos && r.r.pos <= S.end
@@ -103,14 +107,15 @@ package bed
 //@   ensures forall t int :: 0 <= t && t < len(Y) && Y[t].1 != nil ==> t == len(Y)-1
 //@   ensures forall t int :: 0 <= t && t < len(Y) ==> (Y[t].1 != nil <==> Y[t].0 == nil)
 //@   ensures forall t int :: 0 <= t && t < len(Y) ==> Y[t].1 != 1
-// content (C04), for a reader that does not fail, over the lines of the stream (ScanLines split, specs/27bed.spec): the
+// content (C04, C07), over the lines of the stream (ScanLines split, specs/27bed.spec): the
 // t-th read starts at line bst(t) (bst(0) = 0, bst(t+1) = the line after the record of read t), skips blank and comment
-// lines, and item t is the parse (bedRec) of the first other line bnx(bst(t)); an unstopped run without an error item ends when
-// no record line is left
+// lines, and item t is the parse (bedRec) of the first other line bnx(bst(t)) - under a fault only of a line that is terminated
+// before the end of the delivered bytes, i.e. the same in any longer stream; without a fault an unstopped run without an error
+// item ends when no record line is left
 //@   ensures rd.r.id == r.id
 //@   let IN := rd.r.in
 //@   let E := rd.r.end
-//@   ensures @C04 forall t int :: {Y[t].1} !rd.r.fault && 0 <= t && t < len(Y) && Y[t].1 == nil ==> bnx(IN, E, bst(IN, E, t)) < lnN(IN, E) && bedRec(Y[t].0.N, Y[t].0.Chrom, Y[t].0.ChromStart, Y[t].0.ChromEnd, Y[t].0.Name, Y[t].0.Score, Y[t].0.Strand, Y[t].0.ThickStart, Y[t].0.ThickEnd, Y[t].0.ItemRGB, Y[t].0.BlockCount, rawarr(Y[t].0.BlockSizes), offset(Y[t].0.BlockSizes), len(Y[t].0.BlockSizes), rawarr(Y[t].0.BlockStarts), offset(Y[t].0.BlockStarts), len(Y[t].0.BlockStarts), lnStr(IN, E, bnx(IN, E, bst(IN, E, t))))
+//@   ensures @C04 forall t int :: {Y[t].1} 0 <= t && t < len(Y) && Y[t].1 == nil ==> (rd.r.fault ==> lnT(IN, E, bnx(IN, E, bst(IN, E, t))) < E) && bnx(IN, E, bst(IN, E, t)) < lnN(IN, E) && bedRec(Y[t].0.N, Y[t].0.Chrom, Y[t].0.ChromStart, Y[t].0.ChromEnd, Y[t].0.Name, Y[t].0.Score, Y[t].0.Strand, Y[t].0.ThickStart, Y[t].0.ThickEnd, Y[t].0.ItemRGB, Y[t].0.BlockCount, rawarr(Y[t].0.BlockSizes), offset(Y[t].0.BlockSizes), len(Y[t].0.BlockSizes), rawarr(Y[t].0.BlockStarts), offset(Y[t].0.BlockStarts), len(Y[t].0.BlockStarts), lnStr(IN, E, bnx(IN, E, bst(IN, E, t))))
 //@   ensures @C04 !stopped && !rd.r.fault && (len(Y) == 0 || Y[len(Y)-1].1 == nil) ==> bnx(IN, E, bst(IN, E, len(Y))) == lnN(IN, E)
 // an error item (of a reader that does not fail) stands for a record line that is not acceptable (bedOK: the folded completeness
 // condition; its second argument is the number of fields the first record fixed)
@@ -119,9 +124,9 @@ package bed
 //@     invariant rd != nil
 //@     invariant forall t int :: 0 <= t && t < len(Y) ==> Y[t].1 == nil && Y[t].0 != nil
 //@     invariant rd.r.pos <= rd.r.end && !rd.r.fired
-//@     invariant @C04 !rd.r.fault ==> rd.n == (IT == 0 ? 0 : Y[0].0.N)
-//@     invariant @C04 !rd.r.fault ==> len(Y) == IT && mark(IT) && 0 <= bst(IN, E, IT) && bst(IN, E, IT) <= lnN(IN, E) && rd.r.pos == lnS(IN, E, bst(IN, E, IT))
-//@     invariant @C04 forall t int :: {Y[t].1} !rd.r.fault && 0 <= t && t < len(Y) ==> Y[t].1 == nil && bnx(IN, E, bst(IN, E, t)) < lnN(IN, E) && bedRec(Y[t].0.N, Y[t].0.Chrom, Y[t].0.ChromStart, Y[t].0.ChromEnd, Y[t].0.Name, Y[t].0.Score, Y[t].0.Strand, Y[t].0.ThickStart, Y[t].0.ThickEnd, Y[t].0.ItemRGB, Y[t].0.BlockCount, rawarr(Y[t].0.BlockSizes), offset(Y[t].0.BlockSizes), len(Y[t].0.BlockSizes), rawarr(Y[t].0.BlockStarts), offset(Y[t].0.BlockStarts), len(Y[t].0.BlockStarts), lnStr(IN, E, bnx(IN, E, bst(IN, E, t))))
+//@     invariant @C04 rd.n == (IT == 0 ? 0 : Y[0].0.N)
+//@     invariant @C04 len(Y) == IT && mark(IT) && 0 <= bst(IN, E, IT) && bst(IN, E, IT) <= lnN(IN, E) && rd.r.pos == lnS(IN, E, bst(IN, E, IT))
+//@     invariant @C04 forall t int :: {Y[t].1} 0 <= t && t < len(Y) ==> Y[t].1 == nil && (rd.r.fault ==> lnT(IN, E, bnx(IN, E, bst(IN, E, t))) < E) && bnx(IN, E, bst(IN, E, t)) < lnN(IN, E) && bedRec(Y[t].0.N, Y[t].0.Chrom, Y[t].0.ChromStart, Y[t].0.ChromEnd, Y[t].0.Name, Y[t].0.Score, Y[t].0.Strand, Y[t].0.ThickStart, Y[t].0.ThickEnd, Y[t].0.ItemRGB, Y[t].0.BlockCount, rawarr(Y[t].0.BlockSizes), offset(Y[t].0.BlockSizes), len(Y[t].0.BlockSizes), rawarr(Y[t].0.BlockStarts), offset(Y[t].0.BlockStarts), len(Y[t].0.BlockStarts), lnStr(IN, E, bnx(IN, E, bst(IN, E, t))))
 //@     decreases rd.r.end - rd.r.pos
 //@     splitvar t == IT - 1
 
